@@ -603,7 +603,17 @@ class Bundle:
             body = [go_print("cbarg", "s", True, lv), "\ts = cb.%s{}" % tn, "\tcb.Sink(unsafe.Pointer(&s))"]
             if rsh:
                 body += go_fill("o", "cbres", rtn, rlv)
-                body.append("\treturn o")
+                if ci % 2 == 0:
+                    # the result is an earlier copy of a variable one of whose fields is overwritten before the return:
+                    # the caller must receive what the copy held
+                    rt0, _, rg0 = rlv[0]
+                    body.append("\thold%d = o" % ci)
+                    body.append("\told := hold%d" % ci)
+                    body.append("\thold%d%s = %s" % (ci, rg0, go_lit(leaf_value(tag, "cbres.alt", rt0), rt0)))
+                    body.append("\treturn old")
+                    gom.append("var hold%d cb.%s" % (ci, rtn))
+                else:
+                    body.append("\treturn o")
             literal = ci % 3 == 2        # every third callback is a function literal (a closure without captured variables)
             g = [] if literal else ["func cb%d(%s)%s {" % (ci, ", ".join(gparams), gret)] + body + ["}"]
             g.append("func case%d() {" % ci)
